@@ -20,6 +20,7 @@ pub struct UsartDev(pub Rc<RefCell<UsartSt>>);
 impl embedded_hal::serial::Read<u8> for UsartDev {
     type Error = ();
     fn read(&mut self) -> nb::Result<u8, ()> {
+        sample_peak();
         let mut s = self.0.borrow_mut();
         match s.rx.pop_front() {
             None => { spin(&mut s.spins); Err(nb::Error::WouldBlock) }
@@ -51,6 +52,7 @@ pub struct CanSt { pub rx: VecDeque<CanTok>, pub ans: VecDeque<u8>, pub accept_a
 pub struct CanDev(pub Rc<RefCell<CanSt>>);
 impl ross_protocol::interface::can::verif_sim::Instance for CanDev {
     fn receive(&mut self) -> nb::Result<bxcan::Frame, ()> {
+        sample_peak();
         let mut s = self.0.borrow_mut();
         match s.rx.pop_front() {
             None => { spin(&mut s.spins); Err(nb::Error::WouldBlock) }
@@ -79,6 +81,7 @@ pub struct SerSt { pub rx: VecDeque<u16>, pub ans: VecDeque<u32>, pub flush_ok: 
 pub struct SerDev(pub Arc<Mutex<SerSt>>);
 impl std::io::Read for SerDev {
     fn read(&mut self, buf: &mut [u8]) -> std::io::Result<usize> {
+        sample_peak();
         let mut s = self.0.lock().unwrap();
         if buf.is_empty() { return Ok(0); }
         match s.rx.front().cloned() {
@@ -152,3 +155,8 @@ unsafe impl GlobalAlloc for Counting {
     unsafe fn realloc(&self, p: *mut u8, l: Layout, n: usize) -> *mut u8 { LIVE.fetch_add(n as isize - l.size() as isize, Ordering::Relaxed); System.realloc(p, l, n) }
 }
 pub fn live() -> isize { LIVE.load(Ordering::Relaxed) }
+// highest live heap seen by a device call since the last reset (devices sample it on every read)
+pub static PEAK: AtomicIsize = AtomicIsize::new(0);
+pub fn sample_peak() { let l = live(); if l > PEAK.load(Ordering::Relaxed) { PEAK.store(l, Ordering::Relaxed); } }
+pub fn reset_peak() { PEAK.store(live(), Ordering::Relaxed); }
+pub fn peak() -> isize { PEAK.load(Ordering::Relaxed) }
